@@ -7,6 +7,7 @@ package otap
 import (
 	"bytes"
 	"fmt"
+	"os"
 	"runtime/debug"
 	"sort"
 	"strconv"
@@ -43,6 +44,10 @@ type Options struct {
 	OrderSpanBy    *int     `json:"order_span_by,omitempty"`
 	OrderAttrs16By *int     `json:"order_attrs16_by,omitempty"`
 	OrderAttrs32By *int     `json:"order_attrs32_by,omitempty"`
+	// the remaining public options, used where a property says "all producer
+	// options" (C08, C15, C16)
+	InitDict string   `json:"init_dict,omitempty"` // "u8", "u16", "u32", "u64": With*InitDictIndex
+	Stats    []string `json:"stats,omitempty"`     // "schema", "updates", "record", "producer", "compression", "dump:<PAYLOAD_TYPE>:<rows>"
 }
 
 func (o Options) String() string {
@@ -64,6 +69,12 @@ func (o Options) String() string {
 	}
 	if o.OrderAttrs32By != nil {
 		p = append(p, fmt.Sprintf("attrs32_order=%d", *o.OrderAttrs32By))
+	}
+	if o.InitDict != "" {
+		p = append(p, "init="+o.InitDict)
+	}
+	if len(o.Stats) > 0 {
+		p = append(p, "stats="+strings.Join(o.Stats, "+"))
 	}
 	if len(p) == 0 {
 		return "default"
@@ -113,6 +124,37 @@ func (o Options) Build() []config.Option {
 	}
 	if o.OrderAttrs32By != nil {
 		opts = append(opts, config.WithOrderAttrs32By(config.OrderAttrs32By(*o.OrderAttrs32By)))
+	}
+	switch o.InitDict {
+	case "u8":
+		opts = append(opts, config.WithUint8InitDictIndex())
+	case "u16":
+		opts = append(opts, config.WithUint16InitDictIndex())
+	case "u32":
+		opts = append(opts, config.WithUint32LinitDictIndex())
+	case "u64":
+		opts = append(opts, config.WithUint64InitDictIndex())
+	}
+	for _, st := range o.Stats {
+		switch {
+		case st == "schema":
+			opts = append(opts, config.WithSchemaStats())
+		case st == "updates":
+			opts = append(opts, config.WithSchemaUpdates())
+		case st == "record":
+			opts = append(opts, config.WithRecordStats())
+		case st == "producer":
+			opts = append(opts, config.WithProducerStats())
+		case st == "compression":
+			opts = append(opts, config.WithCompressionRatioStats())
+		case strings.HasPrefix(st, "dump:"):
+			p := strings.Split(st, ":")
+			if len(p) == 3 {
+				if n, err := strconv.Atoi(p[2]); err == nil {
+					opts = append(opts, config.WithDumpRecordRows(p[1], n))
+				}
+			}
+		}
 	}
 	return opts
 }
@@ -426,6 +468,15 @@ type RunConfig struct {
 
 // RunStream executes a stream case against the real producer and consumer.
 func RunStream(c *StreamCase, rc RunConfig) (*StreamResult, error) {
+	if len(c.Options.Stats) > 0 {
+		// the statistics options print to standard output: keep the shard logs
+		// small (single-goroutine checks only; C16 does not draw them)
+		if devnull, err := os.OpenFile(os.DevNull, os.O_WRONLY, 0); err == nil {
+			saved := os.Stdout
+			os.Stdout = devnull
+			defer func() { os.Stdout = saved; _ = devnull.Close() }()
+		}
+	}
 	res := &StreamResult{Events: NewEvents()}
 	opts := c.Options.Build()
 	opts = append(opts, config.WithObserver(res.Events))
